@@ -3,6 +3,9 @@ import math
 from fractions import Fraction as F
 from core import Stream, q, fl, coq_list
 
+import genmodels
+generated_model = genmodels.geometry_generated_model      # second tie: the geometry kernels translated from the source on every run and proved equal to the model
+
 PROP = 'C16'
 THEOREM_FILE = 'Props/C16.v'
 NOTES = ['Douglas-Peucker: the float instance of the generic model is compared decision for decision (kept fixes identical); the theorems are about its real instance',
